@@ -305,7 +305,7 @@ def flat_targets(plans, prefix=""):
 def gen_project(rng, opts=None):
     opts = dict(opts or {})
     nloc = rng.range(1, 4)
-    locales = rng.sample(opts.get("locale_pool", LOCALE_POOL), nloc)
+    locales = list(opts["locales"]) if "locales" in opts else rng.sample(opts.get("locale_pool", LOCALE_POOL), nloc)
     default = locales[0] if rng.chance(3, 4) else rng.pick(locales)
     listed = list(locales)
     if rng.chance(1, 6) and len(listed) > 1:
